@@ -414,4 +414,50 @@ theorem scanCommentTok_spec (cfg : Cfg) (hd : cfg.d ≠ .go) (fuel : Nat) (hF : 
       · exact this.2 (by simpa using hcm) _ ⟨rfl, rfl, rfl, rfl, rfl⟩
       · exact this.2 (by simpa using hcm) _ ⟨rfl, rfl, rfl, rfl, rfl⟩
 
+
+/-! ### table facts used by the hand-written cases -/
+
+theorem spelling_semicolon (d : Dialect) (hd : d ≠ .go) : spelling d (codes d).SEMICOLON = some [0x3B] := by
+  cases d
+  · decide +kernel
+  · decide +kernel
+  · exact absurd rfl hd
+
+theorem spelling_period (d : Dialect) (hd : d ≠ .go) : spelling d (codes d).PERIOD = some [0x2E] := by
+  cases d
+  · decide +kernel
+  · decide +kernel
+  · exact absurd rfl hd
+
+theorem spelling_ellipsis (d : Dialect) (hd : d ≠ .go) : spelling d (codes d).ELLIPSIS = some [0x2E, 0x2E, 0x2E] := by
+  cases d
+  · decide +kernel
+  · decide +kernel
+  · exact absurd rfl hd
+
+theorem mem_of_lookup {α : Type} {l : List (Nat × α)} {k : Nat} {v : α} (h : l.lookup k = some v) : (k, v) ∈ l := by
+  induction l with
+  | nil => simp at h
+  | cons a t ih =>
+    obtain ⟨k', v'⟩ := a
+    simp only [List.lookup_cons] at h
+    split at h
+    · rename_i hk
+      have : k = k' := by simpa using hk
+      cases h; rw [this]; simp
+    · simp [ih h]
+
+theorem ops_lookup_spelled (d : Dialect) (hd : d ≠ .go) {ch : Nat} {t : Trie} (h : (codes d).ops.lookup ch = some t) :
+    ch < 0x80 ∧ ∀ (st : St) (pos : Nat), Inv src st → pos ≤ st.off → slice src pos st.off = [UInt8.ofNat ch] →
+      spelling d (walk src t st).2.1 = some (slice src pos (walk src t st).1.off) := by
+  have hm := mem_of_lookup h
+  cases d
+  · have := (List.all_eq_true.mp xgo_ops_spelled) _ hm
+    simp only [Bool.and_eq_true, decide_eq_true_eq] at this
+    exact ⟨this.1, fun st pos hi hp hs => walk_spelled _ t _ st pos this.2 hi hp hs⟩
+  · have := (List.all_eq_true.mp tpl_ops_spelled) _ hm
+    simp only [Bool.and_eq_true, decide_eq_true_eq] at this
+    exact ⟨this.1, fun st pos hi hp hs => walk_spelled _ t _ st pos this.2 hi hp hs⟩
+  · exact absurd rfl hd
+
 end GopModel.Scan
